@@ -144,7 +144,7 @@ func (x *Exec) evalIdent(name string, env *Env) Val {
 	}
 	if !env.closed && x.fn != nil {
 		if v, ok := x.lookupName(name, env.atBlock, env.st, false); ok {
-			return v
+			return x.groundFacts(v, env.st)
 		}
 	}
 	if x.fn != nil && x.fn.Pkg != nil {
@@ -457,7 +457,7 @@ func (x *Exec) evalCall(n *SCall, env *Env) Val {
 			x.fail("star() of non-pointer")
 		}
 		key, cs := e.heapKeyFor(p.Elem())
-		return Val{T: fmt.Sprintf("(select %s %s)", e.heapGet(env.st, key), v.T), Sort: cs, GT: p.Elem()}
+		return x.groundFacts(Val{T: fmt.Sprintf("(select %s %s)", e.heapGet(env.st, key), v.T), Sort: cs, GT: p.Elem()}, env.st)
 	case "has": // has(m, k): key present in map
 		m, k := arg(0), arg(1)
 		mt, ok := m.GT.Underlying().(*types.Map)
